@@ -29,7 +29,7 @@ CORRESPONDENCE_ONLY = "that the codec applies exactly this pipeline to explicitl
 EXPLANATION = ("the theorem speaks about AttributeQuantizationTransform; the end-to-end statement (no method, topology or option "
                "leaks into the value) is checked on real encodes of pairs")
 ASSUMPTIONS = ["IEEE-754 binary32 round-to-nearest for + - * / and int->float; no FMA contraction (g++ x86-64 SSE)"]
-TIMEOUT = 3000
+TIMEOUT = 120
 F32 = G.DT["f32"]
 TAG_UID = 77
 
